@@ -58,9 +58,16 @@ Theorem C08_compare_transitive :
          inW M c = true ->
          same_type a b ->
          same_type b c ->
-         same_type a c ->
          compare0 M a b = R true -> compare0 M b c = R true -> compare0 M a c = R true.
-Proof. exact compare_trans. Qed.
+Proof. exact compare_trans2. Qed.
+
+Theorem C08_same_type_composes_along_equal_values :
+  forall a b c : val,
+         wf a = true ->
+         wf b = true ->
+         wf c = true ->
+         prank a b = Eq -> prank b c = Eq -> same_type a b -> same_type b c -> same_type a c.
+Proof. exact same_type_trans. Qed.
 
 Theorem C08_sequence_one_element_changed :
   forall (M : nat) (k : skind) (l1 : list val) (x y : val) (l2 : list val),
@@ -229,6 +236,7 @@ Print Assumptions C08_same_type_symmetric.
 Print Assumptions C08_compare_reflexive.
 Print Assumptions C08_compare_symmetric.
 Print Assumptions C08_compare_transitive.
+Print Assumptions C08_same_type_composes_along_equal_values.
 Print Assumptions C08_sequence_one_element_changed.
 Print Assumptions C08_sequence_one_element_changed_unequal.
 Print Assumptions C08_sequence_element_added_or_removed.
